@@ -22,6 +22,7 @@ fn base_rules() -> Vec<RuleSrc> {
         RuleSrc::new("jp {x}", "0x40 @ le(x`16)"),
         RuleSrc::new("st {x}", "0x50 @ x[7:0]"),
         RuleSrc::new("lds {s: srcx}", "0x60 @ 0x0 @ s"),
+        RuleSrc::new("{x: u8} !", "0x90 @ x"),
     ]
 }
 
@@ -45,6 +46,9 @@ fn inner_forms() -> Vec<String> {
     for o in ["#l", "#{p}", "l", "#G", "#$"] {
         v.push(format!("lds {}", o));
     }
+    // a substitution as the very first token of the line, and two substitutions next to each other
+    v.push("{p} !".to_string());
+    v.push("ld {p}{q}".to_string());
     v
 }
 
